@@ -32,6 +32,9 @@ type Spec struct {
 	// DupFrom/DupInto: module DupInto additionally contains a copy of p<DupFrom>/a.proto; -1 = none.
 	DupFrom int `json:"dup_from"`
 	DupInto int `json:"dup_into"`
+	// DupWKT (with DupFrom == WKTProv): the duplicated file is the well-known-type path module DupFrom provides,
+	// so the ambiguous path is a google/protobuf/ path.
+	DupWKT bool `json:"dup_wkt,omitempty"`
 	// MissingIn: b.proto of this module additionally imports a path nobody provides; -1 = none.
 	MissingIn int `json:"missing_in"`
 	// Layout of the local modules:
@@ -40,6 +43,18 @@ type Spec struct {
 	//   "excl"  (v2) all modules share the directory proto and drop the other modules' files with excludes
 	//   "roots" (v1) v1beta1 modules with two roots: m<i>/ra holds a.proto, m<i>/rb holds b.proto
 	Layout string `json:"layout,omitempty"`
+	// Ages (v1 only, with TwoCommit >= 0): the k-th local module whose buf.lock pins node TwoCommit pins the
+	// commit of age Ages[k] (0 = the newest commit, a >= 1 = older and older commits with other content), so
+	// three pinning modules give three commits of one name. Empty = the two-commit variant described by TCOrder.
+	Ages []int `json:"ages,omitempty"`
+	// MapSeed >= 0: the case runs under this start seed for Go map iteration (runtime overlay, build tag
+	// mapseed), so that every visiting order of the commit map of a name is enumerated; -1 = not controlled.
+	MapSeed int `json:"map_seed"`
+	// WKTProv: this node itself provides the well-known-type path wktProvPath and the import edges into it
+	// are realised by imports of that path alone; -1 = none.
+	WKTProv int `json:"wkt_prov"`
+	// Fault: the registry content of one provider-served module cannot be obtained; nil = none.
+	Fault *Fault `json:"fault,omitempty"`
 
 	// ids are the observed OpaqueIDs of the unnamed local modules in the shared-directory layouts,
 	// where a module is identified by its content (see resolveIDs).
@@ -65,7 +80,21 @@ func (s Spec) place(i int, protoPath string) string {
 const missingPath = "nowhere/x.proto"
 
 func newSpec(g Graph, kinds []Kind, v2 bool) Spec {
-	return Spec{G: g, Graph: g.String(), Kinds: append([]Kind(nil), kinds...), V2: v2, TwoCommit: -1, DupFrom: -1, DupInto: -1, MissingIn: -1}
+	return Spec{G: g, Graph: g.String(), Kinds: append([]Kind(nil), kinds...), V2: v2, TwoCommit: -1, DupFrom: -1, DupInto: -1, MissingIn: -1, MapSeed: -1, WKTProv: -1}
+}
+
+// Fault is an injected failure of the registry side: Node is the provider-served module that is hit.
+//
+//	data    ModuleDataProvider.GetModuleDatasForModuleKeys fails (download failure)
+//	tamper  the served content does not match the pinned digest (verification failure)
+//	bucket  the module data is served but its bucket cannot be opened
+//	stat    every Stat of the module's bucket fails
+//	read    every Get of the module's bucket fails
+//	walk    every Walk of the module's bucket fails
+//	commit  CommitProvider.GetCommitsForModuleKeys fails (needed to order several pinned commits of a name)
+type Fault struct {
+	Node int    `json:"node"`
+	Op   string `json:"op"`
 }
 
 func (s Spec) key() string {
@@ -80,7 +109,124 @@ func (s Spec) key() string {
 	if s.Layout != "" {
 		v += "-" + s.Layout
 	}
-	return fmt.Sprintf("%s/%s/%s/tc%d.%d/dup%d.%d/miss%d", s.Graph, strings.Join(ks, ""), v, s.TwoCommit, s.TCOrder, s.DupFrom, s.DupInto, s.MissingIn)
+	k := fmt.Sprintf("%s/%s/%s/tc%d.%d/dup%d.%d/miss%d", s.Graph, strings.Join(ks, ""), v, s.TwoCommit, s.TCOrder, s.DupFrom, s.DupInto, s.MissingIn)
+	if len(s.Ages) > 0 {
+		k += fmt.Sprintf("/ages%v", s.Ages)
+	}
+	if s.MapSeed >= 0 {
+		k += fmt.Sprintf("/seed%d", s.MapSeed)
+	}
+	if s.WKTProv >= 0 {
+		k += fmt.Sprintf("/wkt%d", s.WKTProv)
+	}
+	if s.DupWKT {
+		k += "/dupwkt"
+	}
+	if s.Fault != nil {
+		k += fmt.Sprintf("/fault%d.%s", s.Fault.Node, s.Fault.Op)
+	}
+	return k
+}
+
+// ages is the age pinned by each pinner of the multi-commit node, in pinner order.
+func (s Spec) ages() []int {
+	if s.TwoCommit < 0 {
+		return nil
+	}
+	if len(s.Ages) > 0 {
+		return s.Ages
+	}
+	// two-commit variant: the first pinner pins the old (TCOrder 0) or the new (1) commit, the others the other one
+	out := make([]int, len(s.pinners(s.TwoCommit)))
+	for k := range out {
+		if (k == 0) == (s.TCOrder == 0) {
+			out[k] = 1
+		}
+	}
+	return out
+}
+
+// newestPinnedAge is the age of the newest commit any buf.lock pins for the multi-commit node.
+func (s Spec) newestPinnedAge() int {
+	best := -1
+	for _, a := range s.ages() {
+		if best < 0 || a < best {
+			best = a
+		}
+	}
+	return max(best, 0)
+}
+
+// distinctAges is the number of distinct commits of the multi-commit node that are pinned.
+func (s Spec) distinctAges() int {
+	seen := map[int]bool{}
+	for _, a := range s.ages() {
+		seen[a] = true
+	}
+	return len(seen)
+}
+
+// dupPath is the path module DupInto holds a copy of.
+func (s Spec) dupPath() string {
+	if s.DupWKT {
+		return wktProvPath
+	}
+	return aPath(s.DupFrom)
+}
+
+func (s Spec) dupContent() string {
+	if s.DupWKT {
+		return wktProvContent
+	}
+	return moduleFiles(s.DupFrom, nil, "", nil, -1)[aPath(s.DupFrom)]
+}
+
+// plant describes the planted ambiguity: the modules one of whose own files imports the ambiguous path, a
+// file whose presence in an image means the path is needed, the error class and the signature label.
+type plantInfo struct {
+	importers  []int
+	neededFile string
+	class      string
+	label      string
+}
+
+func (s Spec) plant() (plantInfo, bool) {
+	switch {
+	case s.DupWKT:
+		var imps []int
+		for j := 0; j < s.G.N; j++ {
+			if j != s.WKTProv && s.G.Adj[j][s.WKTProv] {
+				imps = append(imps, j)
+			}
+		}
+		return plantInfo{imps, wktProvPath, "duplicate", "dup"}, true
+	case s.DupFrom >= 0:
+		return plantInfo{[]int{s.DupFrom}, aPath(s.DupFrom), "duplicate", "dup"}, true
+	case s.MissingIn >= 0:
+		return plantInfo{[]int{s.MissingIn}, bPath(s.MissingIn), "import-not-exist", "missing"}, true
+	}
+	return plantInfo{}, false
+}
+
+// affected: module i is, or reaches, a module that imports the ambiguous path.
+func (p plantInfo) affected(g Graph, i int) bool {
+	r := g.reach(i)
+	for _, j := range p.importers {
+		if i == j || r[j] {
+			return true
+		}
+	}
+	return false
+}
+
+// inClosure: a module that imports the ambiguous path is in the closure (targets plus reachable).
+func (p plantInfo) inClosure(in []bool) bool {
+	for _, j := range p.importers {
+		if in[j] {
+			return true
+		}
+	}
+	return false
 }
 
 // modID is the expected OpaqueID of node i: the name when it has one, else the bucket ID (= module dir).
@@ -165,6 +311,23 @@ func (s Spec) valid() (bool, string) {
 	if s.TwoCommit >= 0 && (s.Kinds[s.TwoCommit] != KRemote || s.V2 || len(s.pinners(s.TwoCommit)) < 2) {
 		return false, "two-commits-need-two-v1-locks"
 	}
+	if len(s.Ages) > 0 && (s.TwoCommit < 0 || len(s.Ages) != len(s.pinners(s.TwoCommit))) {
+		return false, "ages-need-one-entry-per-pinning-lock"
+	}
+	for _, a := range s.Ages {
+		if a < 0 || a > 6 {
+			return false, "age-out-of-range"
+		}
+	}
+	if s.WKTProv >= 0 && (s.WKTProv >= s.G.N || s.Layout != "" || !s.present(s.WKTProv)) {
+		return false, "wkt-provider-not-in-workspace"
+	}
+	if s.DupWKT && (s.DupFrom < 0 || s.DupFrom != s.WKTProv || s.DupInto < 0) {
+		return false, "wkt-duplicate-needs-the-wkt-provider-as-source"
+	}
+	if s.Fault != nil && (s.Fault.Node < 0 || s.Fault.Node >= s.G.N || (s.Kinds[s.Fault.Node] != KRemote && s.Kinds[s.Fault.Node] != KBoth)) {
+		return false, "fault-needs-a-provider-served-module"
+	}
 	if s.DupInto >= 0 && !s.present(s.DupInto) {
 		return false, "duplicate-holder-not-in-workspace"
 	}
@@ -185,11 +348,26 @@ func (s Spec) valid() (bool, string) {
 }
 
 func commitID(i int, old bool) uuid.UUID {
-	x := 0x10 + i
 	if old {
-		x = 0x80 + i
+		return commitIDAge(i, 1)
+	}
+	return commitIDAge(i, 0)
+}
+
+// commitIDAge is the id of the commit of node i of the given age (0 = newest).
+func commitIDAge(i int, age int) uuid.UUID {
+	x := 0x10 + i
+	if age > 0 {
+		x = 0x80 + 0x10*(age-1) + i
 	}
 	return uuid.MustParse(fmt.Sprintf("0c10c10c-0000-4000-8000-0000000000%02x", x))
+}
+
+func ageMarker(age int) string {
+	if age == 1 {
+		return "old_marker"
+	}
+	return fmt.Sprintf("old%d_marker", age)
 }
 
 var baseTime = time.Unix(1700000000, 0)
@@ -217,13 +395,13 @@ func build(ctx context.Context, s Spec) (*Built, error) {
 	for _, i := range s.remotes() {
 		var files map[string]string
 		if s.Kinds[i] == KRemote {
-			files = moduleFiles(i, g.outs(i), "", nil)
+			files = moduleFiles(i, g.outs(i), "", nil, s.WKTProv)
 			if s.DupInto == i {
-				files[aPath(s.DupFrom)] = moduleFiles(s.DupFrom, nil, "", nil)[aPath(s.DupFrom)]
+				files[s.dupPath()] = s.dupContent()
 			}
 		} else {
 			// the registry commit of a module that is also present locally: no out-edges, a marker file
-			files = moduleFiles(i, nil, "remote_marker", nil)
+			files = moduleFiles(i, nil, "remote_marker", nil, -1)
 		}
 		mainDatas = append(mainDatas, bufmoduletesting.ModuleData{
 			Name:       modName(i),
@@ -233,7 +411,8 @@ func build(ctx context.Context, s Spec) (*Built, error) {
 		})
 	}
 	mp := &multiProvider{byCommit: map[uuid.UUID]bufmoduletesting.OmniProvider{}}
-	var mainOmni, oldOmni bufmoduletesting.OmniProvider
+	var mainOmni bufmoduletesting.OmniProvider
+	oldOmni := map[int]bufmoduletesting.OmniProvider{} // by age
 	if len(mainDatas) > 0 {
 		var err error
 		mainOmni, err = bufmoduletesting.NewOmniProvider(mainDatas...)
@@ -246,17 +425,22 @@ func build(ctx context.Context, s Spec) (*Built, error) {
 	}
 	if s.TwoCommit >= 0 {
 		i := s.TwoCommit
-		var err error
-		oldOmni, err = bufmoduletesting.NewOmniProvider(bufmoduletesting.ModuleData{
-			Name:       modName(i),
-			CommitID:   commitID(i, true),
-			CreateTime: baseTime.Add(-time.Hour),
-			PathToData: toBytes(moduleFiles(i, nil, "old_marker", nil)),
-		})
-		if err != nil {
-			return nil, fmt.Errorf("old provider: %w", err)
+		for _, age := range s.ages() {
+			if age == 0 || oldOmni[age] != nil {
+				continue
+			}
+			o, err := bufmoduletesting.NewOmniProvider(bufmoduletesting.ModuleData{
+				Name:       modName(i),
+				CommitID:   commitIDAge(i, age),
+				CreateTime: baseTime.Add(-time.Duration(age) * time.Hour),
+				PathToData: toBytes(moduleFiles(i, nil, ageMarker(age), nil, -1)),
+			})
+			if err != nil {
+				return nil, fmt.Errorf("old provider: %w", err)
+			}
+			oldOmni[age] = o
+			mp.byCommit[commitIDAge(i, age)] = o
 		}
-		mp.byCommit[commitID(i, true)] = oldOmni
 	}
 	keyFor := func(omni bufmoduletesting.OmniProvider, i int, dt bufmodule.DigestType) (bufmodule.ModuleKey, error) {
 		fn, err := bufparse.ParseFullName(modName(i))
@@ -276,12 +460,12 @@ func build(ctx context.Context, s Spec) (*Built, error) {
 		}
 		return k, nil
 	}
-	lockText := func(version bufconfig.FileVersion, dt bufmodule.DigestType, nodes []int, pinOld bool) (string, error) {
+	lockText := func(version bufconfig.FileVersion, dt bufmodule.DigestType, nodes []int, pinAge int) (string, error) {
 		var keys []bufmodule.ModuleKey
 		for _, i := range nodes {
 			omni := mainOmni
-			if pinOld && i == s.TwoCommit {
-				omni = oldOmni
+			if pinAge > 0 && i == s.TwoCommit {
+				omni = oldOmni[pinAge]
 			}
 			k, err := keyFor(omni, i, dt)
 			if err != nil {
@@ -322,11 +506,11 @@ func build(ctx context.Context, s Spec) (*Built, error) {
 		if s.MissingIn == i {
 			extra = []string{missingPath}
 		}
-		for p, c := range moduleFiles(i, g.outs(i), "", extra) {
+		for p, c := range moduleFiles(i, g.outs(i), "", extra, s.WKTProv) {
 			files[s.place(i, p)] = c
 		}
 		if s.DupInto == i {
-			files[s.place(i, aPath(s.DupFrom))] = moduleFiles(s.DupFrom, nil, "", nil)[aPath(s.DupFrom)]
+			files[s.place(i, s.dupPath())] = s.dupContent()
 		}
 	}
 	if (s.shared() && !s.V2) || (s.Layout == "roots" && (s.V2 || len(s.remotes()) > 0)) || ((s.shared() || s.Layout == "roots") && (s.DupFrom >= 0)) {
@@ -378,7 +562,7 @@ func build(ctx context.Context, s Spec) (*Built, error) {
 			fmt.Fprintf(&y, "  - %s\n", modName(i))
 		}
 		files["buf.yaml"] = y.String()
-		lt, err := lockText(bufconfig.FileVersionV2, bufmodule.DigestTypeB5, union, false)
+		lt, err := lockText(bufconfig.FileVersionV2, bufmodule.DigestTypeB5, union, 0)
 		if err != nil {
 			return nil, fmt.Errorf("v2 lock: %w", err)
 		}
@@ -407,12 +591,17 @@ func build(ctx context.Context, s Spec) (*Built, error) {
 			}
 			y.WriteString(depsYAML("", s.pins(i)))
 			files[modDir(i)+"/buf.yaml"] = y.String()
-			pinOld := false
+			pinAge := 0
 			if s.TwoCommit >= 0 {
-				// the first module that pins the two-commit node pins the old (TCOrder 0) or the new (1) commit, the others the other one
-				pinOld = (i == s.pinners(s.TwoCommit)[0]) == (s.TCOrder == 0)
+				// which commit of the multi-commit node this module's buf.lock pins
+				ages := s.ages()
+				for k, l := range s.pinners(s.TwoCommit) {
+					if l == i {
+						pinAge = ages[k]
+					}
+				}
 			}
-			lt, err := lockText(bufconfig.FileVersionV1, bufmodule.DigestTypeB4, s.pins(i), pinOld)
+			lt, err := lockText(bufconfig.FileVersionV1, bufmodule.DigestTypeB4, s.pins(i), pinAge)
 			if err != nil {
 				return nil, fmt.Errorf("v1 lock: %w", err)
 			}
@@ -421,7 +610,12 @@ func build(ctx context.Context, s Spec) (*Built, error) {
 			}
 		}
 	}
-	return &Built{Spec: s, Files: files, Providers: bufx.Providers{Graph: mp, ModuleData: mp, Commit: mp}}, nil
+	providers := bufx.Providers{Graph: mp, ModuleData: mp, Commit: mp}
+	if s.Fault != nil {
+		fp := &faultProvider{multiProvider: mp, name: modName(s.Fault.Node), op: s.Fault.Op}
+		providers = bufx.Providers{Graph: mp, ModuleData: fp, Commit: fp}
+	}
+	return &Built{Spec: s, Files: files, Providers: providers}, nil
 }
 
 // multiProvider routes every key to the OmniProvider that holds its commit, so that one module name
